@@ -30,3 +30,88 @@ mod status;
 mod ui;
 mod validity;
 
+
+
+//------------ Verification access -------------------------------------------
+
+/// Access to the request dispatcher without a network connection.
+#[cfg(routinator_verif)]
+pub mod verif {
+    use http_body_util::BodyExt;
+    pub use super::dispatch::State;
+    use super::request::Request;
+
+    /// A collected response.
+    #[derive(Clone, Debug)]
+    pub struct Answer {
+        /// The status code.
+        pub status: u16,
+
+        /// The headers.
+        pub headers: Vec<(String, String)>,
+
+        /// The body.
+        pub body: Vec<u8>,
+
+        /// The sizes of the data frames of the body.
+        pub chunks: Vec<usize>,
+    }
+
+    impl Answer {
+        /// Returns the first header with the given name.
+        pub fn header(&self, name: &str) -> Option<&str> {
+            self.headers.iter().find(|item| {
+                item.0.eq_ignore_ascii_case(name)
+            }).map(|item| item.1.as_str())
+        }
+    }
+
+    /// Creates a body-less request.
+    pub fn request(
+        method: &str, uri: &str, headers: &[(&str, &str)]
+    ) -> Request {
+        let mut builder = hyper::Request::builder().method(method).uri(uri);
+        for (name, value) in headers {
+            builder = builder.header(*name, *value);
+        }
+        let (parts, _) = builder.body(()).expect(
+            "invalid verification request"
+        ).into_parts();
+        Request::new(parts, None)
+    }
+
+    /// Dispatches a body-less request and collects the response.
+    pub async fn handle(
+        state: &State, method: &str, uri: &str, headers: &[(&str, &str)]
+    ) -> Answer {
+        let response = state.handle_request(
+            request(method, uri, headers)
+        ).await;
+        let (parts, mut body) = match response.into_hyper() {
+            Ok(response) => response.into_parts(),
+            Err(err) => match err { }
+        };
+        let mut res = Answer {
+            status: parts.status.as_u16(),
+            headers: parts.headers.iter().map(|(name, value)| {
+                (
+                    name.as_str().into(),
+                    String::from_utf8_lossy(value.as_bytes()).into_owned()
+                )
+            }).collect(),
+            body: Vec::new(),
+            chunks: Vec::new(),
+        };
+        while let Some(frame) = body.frame().await {
+            let frame = match frame {
+                Ok(frame) => frame,
+                Err(err) => match err { }
+            };
+            if let Ok(data) = frame.into_data() {
+                res.chunks.push(data.len());
+                res.body.extend_from_slice(&data);
+            }
+        }
+        res
+    }
+}
